@@ -458,7 +458,7 @@ class RuntimeEngine:
     def _float_(self, dyn_ast, iid, val):
         self.call_if_exists("runtime_event", dyn_ast, iid)
         res_high = self.call_if_exists("literal", dyn_ast, iid, val)
-        res_low = self.call_if_exists("float", dyn_ast, iid, val)
+        res_low = self.call_if_exists("_float", dyn_ast, iid, val)
         if res_low is not None:
             return res_low
         elif res_high is not None:
